@@ -40,4 +40,4 @@ def harness_args(tier, seed, outdir):
 
 
 def main(argv):
-    return vcheck.standard_check(PROP, argv, harness_args, TRUSTED, ASSUME, RULE, coqchk=True)
+    return vcheck.standard_check(PROP, argv, harness_args, TRUSTED, ASSUME, RULE, coqchk=True, gen=True)
